@@ -113,8 +113,13 @@ class EventDataframeDataReader(AbstractDataframeDataReader):
             raise LeaspyDataInputError("Events must be above 0")
 
         # Check event bool good format
-        if not np.array_equal(
-            df_event[self.event_bool_name], df_event[self.event_bool_name].astype(int)
+        if (
+            df_event[self.event_bool_name].isna().any()
+            or (df_event[self.event_bool_name] < 0).any()
+            or not np.array_equal(
+                df_event[self.event_bool_name],
+                df_event[self.event_bool_name].astype(int),
+            )
         ):
             raise LeaspyDataInputError(
                 "Events must be stored in type int, with 0 equal to censored event"
